@@ -370,7 +370,7 @@ def execInstr (w : World) (ρ : Val → Nat) (i : Instr) (st : St) : Ctl :=
   | .icmp r ty c x y => .next (st.set r (evalCond c ty (ρ x) (ρ y)))
   | .select r ty c x y => .next (st.set r (norm ty (if ρ c ≠ 0 then ρ x else ρ y)))
   | .un op r ty x => .next (st.set r (evalUn op ty (ρ x)))
-  | .load r ty p off => .next (st.set r (memLoad st.mem ((ρ p + off) % 2 ^ 64) (ty.bits / 8)))
+  | .load r ty p off => .next (st.set r (norm ty (memLoad st.mem ((ρ p + off) % 2 ^ 64) (ty.bits / 8))))
   | .store op ty v p off =>
     .next { st with mem := memStore st.mem ((ρ p + off) % 2 ^ 64) (ρ v) (op.bytes ty) }
   | .call fn _ rs args =>
@@ -494,6 +494,51 @@ def rpo (f : Func) : List BlockId :=
 
 /-! ### passRedundantPhiEliminationOpt -/
 
+def Func.allInstrs (f : Func) : List Instr := f.blocks.flatMap (·.instrs)
+
+/-- The `idx`-th block argument, resolved, of every branch instruction that targets `b` (the branches of
+`basicBlock.preds`; the branches of dead blocks are among them). -/
+def Func.branchArgs (f : Func) (b : BlockId) (idx : Nat) : List Val :=
+  f.allInstrs.filterMap (fun i =>
+    match i.branch? with
+    | some (t, as) => if t = b then (as[idx]?).map (res f.alias) else none
+    | none => none)
+
+/-- `nonSelfReferencingValue` when the parameter `phi` is redundant: every incoming value other than `phi`
+itself is the same value. -/
+def uniqueIncoming (phi : Val) (args : List Val) : Option Val :=
+  match args.filter (· ≠ phi) with
+  | [] => none
+  | u :: rest => if rest.all (· = u) then some u else none
+
+/-- the Go code panics ("BUG: params added but only self-referencing") when a parameter of a visited block
+has no incoming value other than itself -/
+def phiWouldPanic (f : Func) (B : Block) : Bool :=
+  (B.params.zipIdx).any (fun (pt, idx) => ((f.branchArgs B.id idx).filter (· ≠ pt.1)).isEmpty)
+
+/-- the redundant parameters of a block: (index, parameter, unique value) -/
+def redundantParams (f : Func) (B : Block) : List (Nat × Val × Val) :=
+  (B.params.zipIdx).filterMap (fun (pt, idx) =>
+    (uniqueIncoming pt.1 (f.branchArgs B.id idx)).map (fun u => (idx, pt.1, u)))
+
+/-- remove the `idx`-th block argument of a branch to `b` -/
+def Instr.dropArg (b : BlockId) (idx : Nat) (i : Instr) : Instr :=
+  match i.branch? with
+  | some (t, as) => if t = b then i.setBranchArgs (as.eraseIdx idx) else i
+  | none => i
+
+/-- Remove the `idx`-th parameter `p` of block `b`: the argument disappears from every branch to `b`, the
+parameter from the block, and `p` becomes an alias of `u`. -/
+def removeParam (f : Func) (b : BlockId) (idx : Nat) (p u : Val) : Func :=
+  { blocks := f.blocks.map (fun B =>
+      { B with params := if B.id = b ∧ ¬ B.invalid then B.params.eraseIdx idx else B.params,
+               instrs := B.instrs.map (Instr.dropArg b idx) }),
+    alias := aliasInsert f.alias p u }
+
+/-! The scan of the Go code resolves the arguments of the predecessors' branches in place while it looks at
+them, and stops at the first predecessor that shows that the parameter is not redundant.  That has no
+influence on the result of the pass, only on which operands are printed resolved after it. -/
+
 /-- the branch instructions that target `b`, in the order of `basicBlock.preds` (by instruction id: blocks in
 the order of `key`, instructions in order), as (block id, index in the block) -/
 def Func.preds (f : Func) (b : BlockId) : List (BlockId × Nat) :=
@@ -515,70 +560,41 @@ def Func.instrAt (f : Func) (p : BlockId × Nat) : Option Instr :=
 def Func.predArg (f : Func) (p : BlockId × Nat) (idx : Nat) : Option Val :=
   ((f.instrAt p).bind (·.branch?)).bind (fun (_, as) => (as[idx]?).map (res f.alias))
 
-/-- The scan of one parameter over the predecessors: `(redundant, nonSelfReferencingValue, number of
-predecessors looked at)`. -/
-def scanParam (f : Func) (phi : Val) (idx : Nat) :
-    List (BlockId × Nat) → Option Val → Nat → Bool × Option Val × Nat
-  | [], u, n => (true, u, n)
+/-- how many predecessors the scan of one parameter looks at -/
+def scanLen (f : Func) (phi : Val) (idx : Nat) : List (BlockId × Nat) → Option Val → Nat → Nat
+  | [], _, n => n
   | p :: ps, u, n =>
     match f.predArg p idx with
-    | none => scanParam f phi idx ps u (n + 1)        -- arity mismatch: not in well-formed functions
+    | none => scanLen f phi idx ps u (n + 1)
     | some a =>
-      if a = phi then scanParam f phi idx ps u (n + 1)
+      if a = phi then scanLen f phi idx ps u (n + 1)
       else match u with
-        | none => scanParam f phi idx ps (some a) (n + 1)
-        | some u' => if u' = a then scanParam f phi idx ps u (n + 1) else (false, u, n + 1)
-
-/-- the redundant parameters of a block: (index, parameter, unique value), and how many predecessors had
-their arguments resolved in place -/
-def redundantParams (f : Func) (B : Block) : List (Nat × Val × Val) × Nat :=
-  let ps := f.preds B.id
-  (B.params.zipIdx).foldl (fun (acc : List (Nat × Val × Val) × Nat) (pt, idx) =>
-    match scanParam f pt.1 idx ps none 0 with
-    | (true, some u, n) => (acc.1 ++ [(idx, pt.1, u)], max acc.2 n)
-    | (_, _, n) => (acc.1, max acc.2 n)) ([], 0)
-
-/-- the Go code panics ("BUG: params added but only self-referencing") when a parameter of a visited block
-has no incoming value other than itself -/
-def phiWouldPanic (f : Func) (B : Block) : Bool :=
-  let ps := f.preds B.id
-  (B.params.zipIdx).any (fun (pt, idx) =>
-    match scanParam f pt.1 idx ps none 0 with
-    | (true, none, _) => true
-    | _ => false)
-
-def removeIdxs {α} (idxs : List Nat) (l : List α) : List α :=
-  (l.zipIdx).filterMap (fun (x, k) => if k ∈ idxs then none else some x)
+        | none => scanLen f phi idx ps (some a) (n + 1)
+        | some u' => if u' = a then scanLen f phi idx ps u (n + 1) else n + 1
 
 def Func.mapInstrAt (f : Func) (p : BlockId × Nat) (g : Instr → Instr) : Func :=
   { f with blocks := f.blocks.map (fun B =>
       if B.id = p.1 then { B with instrs := (B.instrs.zipIdx).map (fun (i, k) => if k = p.2 then g i else i) }
       else B) }
 
-/-- One visit of a block in the loop of `passRedundantPhiEliminationOpt`. -/
+/-- `b.resolveArgumentAlias(br)` on the predecessors the scans of the parameters of `B` look at -/
+def resolveScanned (f : Func) (B : Block) : Func :=
+  let ps := f.preds B.id
+  let n := (B.params.zipIdx).foldl (fun acc (pt, idx) => max acc (scanLen f pt.1 idx ps none 0)) 0
+  (ps.take n).foldl (fun g p => g.mapInstrAt p (·.mapOperands (res f.alias))) f
+
+/-- One visit of a block in the loop of `passRedundantPhiEliminationOpt`: the redundant parameters are found
+first, then removed (from the last to the first, so that the indices stay valid). -/
 def phiVisit (f : Func) (b : BlockId) : Func × Bool :=
   match f.findBlock b with
   | none => (f, false)
   | some B =>
     if B.params.isEmpty then (f, false)
     else
-      let (red, nres) := redundantParams f B
-      let ps := f.preds b
-      -- `b.resolveArgumentAlias(br)` on the predecessors that were looked at
-      let f1 := (ps.take nres).foldl (fun g p => g.mapInstrAt p (·.mapOperands (res f.alias))) f
+      let red := redundantParams f B
+      let f1 := resolveScanned f B
       if red.isEmpty then (f1, false)
-      else
-        let idxs := red.map (·.1)
-        -- remove the arguments from every predecessor's branch
-        let f2 := ps.foldl (fun g p =>
-          g.mapInstrAt p (fun i => match i.branch? with
-            | some (_, as) => i.setBranchArgs (removeIdxs idxs as)
-            | none => i)) f1
-        -- alias the parameter to the unique value, drop the parameter
-        let al := red.foldl (fun al r => aliasInsert al r.2.1 r.2.2) f2.alias
-        let blocks := f2.blocks.map (fun B' =>
-          if B'.id = b ∧ ¬ B'.invalid then { B' with params := removeIdxs idxs B'.params } else B')
-        ({ blocks := blocks, alias := al }, true)
+      else (red.reverse.foldl (fun g r => removeParam g b r.1 r.2.1 r.2.2) f1, true)
 
 def phiRound (f : Func) (order : List BlockId) : Func × Bool :=
   order.foldl (fun (acc : Func × Bool) b =>
@@ -600,7 +616,7 @@ def redundantPhiElim (f : Func) : Func :=
 
 /-- `InstructionOfValue`: the instruction that produces `v` (in any block of the pool) -/
 def Func.defInstr (f : Func) (v : Val) : Option Instr :=
-  (f.blocks.flatMap (·.instrs)).find? (fun i => v ∈ i.results)
+  f.allInstrs.find? (fun i => v ∈ i.results)
 
 /-- the rule: a shift whose amount is defined by a constant that is 0 modulo the width of the shifted value -/
 def nopRule (f : Func) (i : Instr) : Option (Val × Val) :=
@@ -639,15 +655,14 @@ def liveLoop (f : Func) : Nat → List Val → List Val → Option (List Val)
   | n + 1, v :: work, live =>
     if v ∈ live then liveLoop f n work live
     else
-      match f.defInstr v with
-      | none => liveLoop f n work (v :: live)
-      | some i => liveLoop f n ((i.operands.map (res f.alias)) ++ work) (i.results ++ live)
+      let ds := f.allInstrs.filter (fun i => v ∈ i.results)
+      liveLoop f n (ds.flatMap (fun i => i.operands.map (res f.alias)) ++ work) (v :: ds.flatMap (·.results) ++ live)
 
 /-- the operands (resolved) of the instructions of valid blocks that are not `sideEffectNone` -/
 def liveRoots (tbl : Opcode → Eff) (f : Func) : List Val :=
   (f.validInstrs.filter (fun i => tbl i.opcode ≠ .none)).flatMap (fun i => i.operands.map (res f.alias))
 
-def Func.numOperands (f : Func) : Nat := ((f.blocks.flatMap (·.instrs)).map (·.operands.length)).sum
+def Func.numOperands (f : Func) : Nat := (f.allInstrs.map (·.operands.length)).sum
 
 def liveSet (tbl : Opcode → Eff) (f : Func) : Option (List Val) :=
   liveLoop f (2 * (f.numOperands + f.numInstrs) + 2) (liveRoots tbl f) []
